@@ -691,14 +691,9 @@ def _problems(case, o):
         # thread (seen ~1 run in 150 under heavy load): recorded finding; anything else is new
         only_unknown = all(len(x) == 3 and x[0] != "orchestrator" and x[0] not in leaving
                            and x[1] == "UnknownComputation" for x in o["crashes"])
-        # a departed agent's un-publication (it names itself since e9e3188), forwarded by the
-        # directory, reaches the Discovery of an agent that already registered the computation
-        # on its new host: Discovery.unregister_computation raises ValueError in that agent's thread
-        only_stale = all(len(x) == 3 and x[0] != "orchestrator" and x[0] not in leaving
-                         and x[1] == "ValueError" and " is known to be hosted on " in x[2]
-                         and any(x[2].rstrip().endswith(", not " + g) for g in leaving)
-                         for x in o["crashes"])
-        return [(F_CRASH if only_unknown else (F_STALE if only_stale else None),
+        # (the ValueError of a stale un-publication forwarded to the Discovery of the new host, finding
+        #  F_STALE, is fixed in /repo 3fa7ad9: such a crash would be a regression and is NOT classified)
+        return [(F_CRASH if only_unknown else None,
                  "thread died / critical error during the run: %r" % (o["crashes"][:3],))]
     if o.get("watcher_incomplete") or before is None:
         return [(None, "the run ended before the state after the repair could be read")]
